@@ -29,6 +29,7 @@ type stormSpec struct {
 	Millis    int `json:"millis"`
 	StallMs   int `json:"stall_ms"`
 	SlowSends int `json:"slow_sends"` // every n-th envelope makes the send function sleep 1 ms (a slow socket)
+	Stalled   int `json:"stalled"`    // members whose socket write blocks for the whole storm; other connections replace them (same peer id)
 }
 
 func stormCase(args []string) string {
@@ -80,6 +81,37 @@ func stormCase(args []string) string {
 		}
 	}
 	env := protocol.Envelope{V: 1, Type: "x", MsgID: "m"}
+	// stalled sockets: their writer goroutine hangs inside send once it has an envelope; reconnects replace them
+	unstall := make(chan struct{})
+	defer func() {
+		select {
+		case <-unstall:
+		default:
+			close(unstall)
+		}
+	}()
+	for i := 0; i < g.Stalled; i++ {
+		h.Add(sid(i), peers.Peer{PeerID: fmt.Sprintf("stalled%d", i), Role: "receiver", ConnID: fmt.Sprintf("stall-%d", i)},
+			func(protocol.Envelope) error { <-unstall; return nil }, func() {})
+		h.SendTo(sid(i), fmt.Sprintf("stalled%d", i), env) // the writer is now blocked in send
+	}
+	for i := 0; i < g.Stalled; i++ {
+		i := i
+		guard(fmt.Sprintf("reconnect%d", i), func() {
+			for k := 0; ; k++ {
+				select {
+				case <-stop:
+					return
+				default:
+				}
+				rm := h.Add(sid(i), peers.Peer{PeerID: fmt.Sprintf("stalled%d", i), Role: "receiver", ConnID: fmt.Sprintf("re-%d-%d", i, k)}, send(), func() {})
+				ops.Add(1)
+				time.Sleep(200 * time.Microsecond)
+				rm()
+				ops.Add(1)
+			}
+		})
+	}
 	for r := 0; r < g.Relays; r++ {
 		r := r
 		guard(fmt.Sprintf("relay%d", r), func() {
@@ -159,6 +191,7 @@ func stormCase(args []string) string {
 		}
 	}
 	close(stop)
+	close(unstall)
 	if stalled {
 		buf := make([]byte, 1<<20)
 		n := runtime.Stack(buf, true)
